@@ -210,6 +210,10 @@ def _do(c, op, ctx):
         return fp(c.pull(**_kw(op, ('prefix', 'side', 'expire_time', 'tag', 'retry'))))
     if name == 'peek':
         return fp(c.peek(**_kw(op, ('prefix', 'side', 'expire_time', 'tag', 'retry'))))
+    if name == 'close':
+        # closes the calling thread's connection(s); the object stays usable (the tutorial and Django call it routinely)
+        (c.cache if hasattr(c, 'cache') and not hasattr(c, 'close') else c).close()
+        return 'None'
     if name == 'check':
         return fp(len(c.check(**_kw(op, ('fix', 'retry')))))
     if name == 'txn':
